@@ -20,7 +20,7 @@ func (C03) Rule() string {
 	return "each run = one seeded history of acknowledged API operations (repo/DAG operations incl. merges, key-value writes and deletes, instance creation, notes and logs; " +
 		"label, annotation and neuron-annotation operations where those workloads exist) with 1-3 restarts placed between operations: clean shutdown (real shutdown sequence under the fake clock) " +
 		"or abrupt process exit at idle; the next lifetime is a FRESH process on the same directories. Oracle: the complete observable snapshot (repos/info without the mutation-id counter, " +
-		"note/log/status of every version, every catalogue read of every instance at every version) taken just before the stop equals the one taken after start-up; the model keeps running across " +
+		"note/log/status of every version, every catalogue read of every instance at every version, and note/log/status/keys read through <root>:<branch> addressing for every branch name incl. master) taken just before the stop equals the one taken after start-up; the model keeps running across " +
 		"the restart, so state rebuilt at start-up must also behave like the state it replaced (later reads vs the reference resolver, graph invariants, id uniqueness). " +
 		"an 'all-types' family does the same on a populated repository holding one instance of every catalogue type (labelmap with synced annotation and labelsz, keyvalue, neuronjson, roi, uint8blk) with valid mutations of every type in open versions between the restarts; non-trivial = at least one restart after at least one merge/branch and one write; distinct = distinct (steps, schedule, faults) hash"
 }
